@@ -1,6 +1,6 @@
 """Byte strings with concrete length and symbolic elements."""
 import z3
-from .core import (SymInt, SymBool, mk_bool, W, ctx, Unsupported, sym_and, sym_not, sym_or, _bv)
+from .core import (simp, SymInt, SymBool, mk_bool, W, ctx, Unsupported, sym_and, sym_not, sym_or, _bv)
 
 
 def _elt_to_int(e):
@@ -18,7 +18,7 @@ def _int_to_elt(x):
         if x.lo < 0 or x.hi > 255:
             if sym_or(x < 0, x > 255):
                 raise ValueError("byte must be in range(0, 256)")
-        e = z3.simplify(x.at(8))
+        e = simp(x.at(8))
         if z3.is_bv_value(e):
             return e.as_long()
         return e
@@ -140,11 +140,12 @@ class SymBytes:
 
     @staticmethod
     def from_bv(t, n):
+        if z3.is_bv_value(t):
+            return SymBytes(list(t.as_long().to_bytes(n, "big")))
         els = []
         for i in range(n):
             hi = 8 * (n - i) - 1
-            x = z3.simplify(z3.Extract(hi, hi - 7, t))
-            els.append(x.as_long() if z3.is_bv_value(x) else x)
+            els.append(z3.Extract(hi, hi - 7, t))   # not simplified: t is an uninterpreted application in practice
         return SymBytes(els)
 
     # -- sequence protocol
